@@ -17,21 +17,28 @@ pub fn replay_line(st: &mut Stats, prop: &str, line: &Value) {
     let scale = line["scale"].as_f64().unwrap() as f32;
     let union_mode = line["mode"].as_str().unwrap() == "union";
     let div = if union_mode { 1.0 } else { scale };
-    let d0: Vec<f32> = arr(&line["d0"]).iter().map(|x| x.as_f64().unwrap() as f32 / div).collect();
-    let w: Vec<f32> = arr(&line["w"]).iter().map(|x| x.as_f64().unwrap() as f32).collect();
+    let inf = line["inf"].as_f64().unwrap_or(f64::MAX);
+    let conv = |x: f64| -> f32 { if x == inf { f32::INFINITY } else { x as f32 / div } };
+    let d0: Vec<f32> = arr(&line["d0"]).iter().map(|x| conv(x.as_f64().unwrap())).collect();
+    // union mode: every input is a set of items (they may overlap), every item has a weight
+    let w: Vec<f32> = arr(&line["iw"]).iter().map(|x| x.as_f64().unwrap() as f32).collect();
+    let input_sets: Vec<Vec<u32>> = arr(&line["sets"]).iter().map(|s| u32_list(s).into_iter().map(|i| 10 + i).collect()).collect();
+    let n_items = w.len().max(n);
     let mode = line["mode"].as_str().unwrap();
     // every call of the distance callback: the pairs it was offered, as sorted term-id lists
     let calls: std::cell::RefCell<Vec<Vec<(Vec<u32>, Vec<u32>)>>> = std::cell::RefCell::new(vec![]);
     let res = catch(|| {
         let mut b = Builder::new();
-        for i in 0..n {
+        for i in 0..n_items {
             b.new_term(&format!("T{i}"), 10 + i as u32);
         }
         let ont = b.terms_complete().connect_all_terms().calculate_information_content().unwrap().build_minimal();
         let sets: Vec<HpoSet> = (0..n)
             .map(|i| {
                 let mut g = HpoGroup::new();
-                g.insert(10 + i as u32);
+                for t in &input_sets[i] {
+                    g.insert(*t);
+                }
                 HpoSet::new(&ont, g)
             })
             .collect();
@@ -76,12 +83,12 @@ pub fn replay_line(st: &mut Stats, prop: &str, line: &Value) {
                 s.len() == got.len()
                     && s.iter().zip(got.iter()).all(|(w, g)| {
                         let (wl, wr) = (w["lhs"].as_u64().unwrap(), w["rhs"].as_u64().unwrap());
-                        let wd = w["dist"].as_f64().unwrap() as f32 / div;
-                        ((wl, wr) == (g.0, g.1) || (wl, wr) == (g.1, g.0)) && (wd - g.2).abs() < 1e-6 && w["size"].as_u64().unwrap() == g.3
+                        let wd = conv(w["dist"].as_f64().unwrap());
+                        ((wl, wr) == (g.0, g.1) || (wl, wr) == (g.1, g.0)) && (wd == g.2 || (wd - g.2).abs() < 1e-6) && w["size"].as_u64().unwrap() == g.3
                     })
             };
             if !allowed.iter().any(matches) {
-                d.push(format!("Linkage::{mode} on distances {:?} (weights {:?}) returned {:?}, which is none of the {} allowed dendrograms", d0, w, got, allowed.len()));
+                d.push(format!("Linkage::{mode} on distances {:?} (sets {:?}, item weights {:?}) returned {:?}, which is none of the {} allowed dendrograms", d0, input_sets, w, got, allowed.len()));
             }
             if into != got {
                 d.push(format!("Linkage::{mode}: into_cluster() {:?} differs from cluster() {:?}", into, got));
@@ -122,26 +129,26 @@ pub fn replay_line(st: &mut Stats, prop: &str, line: &Value) {
             }
             // the callback: first call = every unordered pair of inputs exactly once
             let calls = calls.borrow();
-            let mut first: Vec<(u32, u32)> = calls.first().map(|c| c.iter().map(|(a, b)| (a[0].min(b[0]), a[0].max(b[0]))).collect()).unwrap_or_default();
-            first.sort_unstable();
-            let mut want: Vec<(u32, u32)> = vec![];
-            for i in 0..n as u32 {
-                for j in (i + 1)..n as u32 {
-                    want.push((10 + i, 10 + j));
+            let norm = |a: &Vec<u32>, b: &Vec<u32>| -> (Vec<u32>, Vec<u32>) { if a <= b { (a.clone(), b.clone()) } else { (b.clone(), a.clone()) } };
+            let mut first: Vec<(Vec<u32>, Vec<u32>)> = calls.first().map(|c| c.iter().map(|(a, b)| norm(a, b)).collect()).unwrap_or_default();
+            first.sort();
+            let mut want: Vec<(Vec<u32>, Vec<u32>)> = vec![];
+            for i in 0..n {
+                for j in (i + 1)..n {
+                    want.push(norm(&input_sets[i], &input_sets[j]));
                 }
             }
-            if first != want || calls.first().map_or(true, |c| c.iter().any(|(a, b)| a.len() != 1 || b.len() != 1)) {
-                d.push(format!("Linkage::{mode}: the first call of the distance callback offered the pairs {:?}, expected every unordered pair once: {:?}", first, want));
-            }
-            if !union_mode && calls.len() != 1 {
-                d.push(format!("Linkage::{mode}: the distance callback was called {} times, the arithmetic methods need it once", calls.len()));
+            want.sort();
+            if first != want {
+                d.push(format!("Linkage::{mode}: the first call of the distance callback offered the pairs {:?}, expected every unordered pair of inputs once: {:?}", first, want));
             }
             if union_mode {
                 // k-th later call: new cluster (union of the merged sets) against every live set
-                if calls.len() != n {
+                // initial call + one per merge; the call after the last merge has nothing to offer and is optional
+                if calls.len() != n && calls.len() + 1 != n {
                     d.push(format!("Linkage::union: the distance callback was called {} times, expected {n} (initial + one per merge)", calls.len()));
                 }
-                let mut members: Vec<Vec<u32>> = (0..n as u32).map(|i| vec![10 + i]).collect();
+                let mut members: Vec<Vec<u32>> = input_sets.clone();
                 let mut live: Vec<bool> = vec![true; n];
                 for (k, g) in got.iter().enumerate() {
                     let (a, b) = (g.0 as usize, g.1 as usize);
@@ -151,6 +158,7 @@ pub fn replay_line(st: &mut Stats, prop: &str, line: &Value) {
                     let mut m = members[a].clone();
                     m.extend(members[b].iter().copied());
                     m.sort_unstable();
+                    m.dedup();
                     live[a] = false;
                     live[b] = false;
                     if let Some(call) = calls.get(k + 1) {
@@ -185,4 +193,143 @@ pub fn run(args: &Args) {
         guard_case(&mut st, &prop, "replay-linkage", l, |st| replay_line(st, &prop, l));
     }
     finish(st, args.req("out"), args.req("replay-dir"), json!({"lines": lines.len()}));
+}
+
+/// impl -> spec: random runs of Linkage recorded for spec/trace/TraceLinkage.tla, one trace file per
+/// (number of inputs, mode): `<trace>.<n>.<mode>`.
+pub fn record(args: &Args) {
+    silence_panics();
+    let seed = args.num("seed", 1);
+    let runs = args.num("runs", 100);
+    let max_n = args.num("max-n", 12);
+    let prefix = args.req("trace").to_string();
+    let mut files: std::collections::BTreeMap<(usize, String), Vec<String>> = Default::default();
+    let mut index = vec![];
+    let mut rng = Rng::new(seed.wrapping_mul(0x9E37_79B9).wrapping_add(17));
+    let modes = ["single", "complete", "average", "union"];
+    const INF: i64 = 1 << 30;
+    for run in 0..runs {
+        let mode = modes[(run % 4) as usize];
+        let n = rng.range(2, max_n) as usize;
+        let scale: i64 = 1 << n;
+        let npairs = n * (n - 1) / 2;
+        // inputs: union mode = random non-empty subsets of 2..7 items with weights 2^i (every subset has its own weight);
+        // every fifth union run uses disjoint singletons.  arithmetic modes: singletons, free matrix.
+        let n_items = if mode == "union" && run % 5 != 4 { rng.range(2, 7) as usize } else { n };
+        let sets: Vec<Vec<u32>> = (0..n)
+            .map(|i| {
+                if n_items == n && !(mode == "union" && run % 5 != 4) {
+                    vec![i as u32]
+                } else {
+                    let mut s: Vec<u32> = (0..n_items as u32).filter(|_| rng.chance(1, 2)).collect();
+                    if s.is_empty() {
+                        s.push(rng.below(n_items as u64) as u32);
+                    }
+                    s
+                }
+            })
+            .collect();
+        let iw: Vec<i64> = (0..n_items).map(|i| 1i64 << i).collect();
+        let weight = |v: &[u32]| -> i64 { v.iter().map(|t| iw[*t as usize]).sum() };
+        // the initial matrix in the order of Combinations (i < j, lexicographic)
+        let style = rng.below(10);
+        let mut vals: Vec<i64> = (1..=(npairs as i64 * 3)).collect();
+        rng.shuffle(&mut vals);
+        let mut d0: Vec<i64> = vec![];
+        let mut k = 0;
+        for i in 0..n {
+            for j in (i + 1)..n {
+                let v = if mode == "union" {
+                    (weight(&sets[i]) - weight(&sets[j])).abs()
+                } else if style == 0 {
+                    (1 + rng.below(3) as i64) * scale // many ties
+                } else if style == 1 && rng.chance(1, 4) {
+                    INF
+                } else {
+                    vals[k] * scale // tie free
+                };
+                k += 1;
+                d0.push(v);
+            }
+        }
+        let to_f = |v: i64| -> f32 { if v >= INF { f32::INFINITY } else if mode == "union" { v as f32 } else { v as f32 / scale as f32 } };
+        let from_f = |x: f32| -> i64 {
+            if x.is_infinite() && x > 0.0 {
+                return INF;
+            }
+            let y = if mode == "union" { x as f64 } else { x as f64 * scale as f64 };
+            if (y - y.round()).abs() < 1e-6 && y >= 0.0 { y.round() as i64 } else { -1 }
+        };
+        let calls: std::cell::RefCell<Vec<Vec<(Vec<u32>, Vec<u32>)>>> = std::cell::RefCell::new(vec![]);
+        let res = catch(|| {
+            let mut b = Builder::new();
+            for i in 0..n_items.max(n) {
+                b.new_term(&format!("T{i}"), 10 + i as u32);
+            }
+            let ont = b.terms_complete().connect_all_terms().calculate_information_content().unwrap().build_minimal();
+            let hsets: Vec<HpoSet> = sets
+                .iter()
+                .map(|s| {
+                    let mut g = HpoGroup::new();
+                    for t in s {
+                        g.insert(10 + *t);
+                    }
+                    HpoSet::new(&ont, g)
+                })
+                .collect();
+            let ids = |s: &HpoSet<'_>| -> Vec<u32> {
+                let mut v: Vec<u32> = s.iter().map(|t| t.id().as_u32() - 10).collect();
+                v.sort_unstable();
+                v
+            };
+            let dist = |c: hpo::utils::Combinations<HpoSet<'_>>| -> Vec<f32> {
+                let pairs: Vec<(Vec<u32>, Vec<u32>)> = c.map(|(a, b)| (ids(a), ids(b))).collect();
+                let first = calls.borrow().is_empty();
+                let out: Vec<f32> = if mode == "union" {
+                    pairs.iter().map(|(a, b)| (weight(a) - weight(b)).abs() as f32).collect()
+                } else if first {
+                    d0.iter().map(|v| to_f(*v)).take(pairs.len()).collect()
+                } else {
+                    vec![f32::NAN; pairs.len()]
+                };
+                calls.borrow_mut().push(pairs);
+                out
+            };
+            let l = match mode {
+                "single" => Linkage::single(hsets, dist),
+                "complete" => Linkage::complete(hsets, dist),
+                "average" => Linkage::average(hsets, dist),
+                _ => Linkage::union(hsets, dist),
+            };
+            let cl = l.cluster().map(|c| (c.lhs() as u64, c.rhs() as u64, c.distance(), c.len() as u64)).collect::<Vec<_>>();
+            let idx: Vec<u64> = l.indicies().into_iter().map(|x| x as u64).collect();
+            (cl, idx)
+        });
+        let norm = |a: &Vec<u32>, b: &Vec<u32>| -> Value { if a <= b { json!([a, b]) } else { json!([b, a]) } };
+        let out = files.entry((n, mode.to_string())).or_default();
+        let first_line = out.len() + 1;
+        let calls = calls.borrow();
+        let first: Vec<Value> = calls.first().map(|c| c.iter().map(|(a, b)| norm(a, b)).collect()).unwrap_or_default();
+        out.push(json!({"e": "Start", "run": run, "n": n, "mode": mode, "scale": scale, "d0": d0, "sets": sets, "iw": iw, "first": first}).to_string());
+        match res {
+            Err(p) => out.push(json!({"e": "Panicked", "run": run, "msg": p}).to_string()),
+            Ok((cl, idx)) => {
+                for (k, g) in cl.iter().enumerate() {
+                    let offered: Vec<Value> = if mode == "union" { calls.get(k + 1).map(|c| c.iter().map(|(a, b)| norm(a, b)).collect()).unwrap_or_default() } else { vec![] };
+                    out.push(json!({"e": "Merge", "run": run, "lhs": g.0, "rhs": g.1, "dist": from_f(g.2), "size": g.3, "offered": offered}).to_string());
+                }
+                out.push(json!({"e": "Done", "run": run, "indices": idx, "ncalls": calls.len()}).to_string());
+            }
+        }
+        index.push(json!({"run": run, "n": n, "mode": mode, "first_line": first_line, "last_line": out.len()}));
+    }
+    let mut groups = vec![];
+    for ((n, mode), lines) in &files {
+        let name = format!("{prefix}.{n}.{mode}");
+        std::fs::write(&name, lines.join("\n") + "\n").expect("write trace");
+        groups.push(json!({"n": n, "mode": mode, "file": name, "events": lines.len()}));
+    }
+    let total: usize = files.values().map(|l| l.len()).sum();
+    let summary = json!({"cases": runs, "evaluations": total, "nontrivial": runs, "counters": {"linkage_events": total}, "samples": [], "violations": [], "extra": {"groups": groups, "runs": index}});
+    std::fs::write(args.req("out"), serde_json::to_string(&summary).unwrap()).expect("write summary");
 }
